@@ -1,2 +1,313 @@
-/- C19 driver (stub until the model exists) -/
-def main : IO Unit := pure ()
+/- C19 driver: op lines in, observable lines out (same format as props/C19/harness.cpp).
+For the "equals the published algorithm" operations the expected answer printed is the one of the
+independent reference in Spec.lean; if the table-driven model (tables regenerated from the source)
+disagrees with it an extra `P model-disagrees-with-spec` line is printed. -/
+import TboxModel.Util
+import TboxModel.C19.Model
+import TboxModel.C19.Spec
+open Tbox.Util Tbox.C19
+
+structure DSt where
+  ser : Option Ser.S := none
+  des : Option Ser.D := none
+
+def u64? (s : String) : Option Nat := do
+  let n ← s.toNat?
+  if n < 2 ^ 64 then some n else none
+
+def endian? : String → Option Ser.Endian
+  | "b" => some .big
+  | "l" => some .little
+  | _ => none
+
+def bool01? : String → Option Bool
+  | "0" => some false
+  | "1" => some true
+  | _ => none
+
+def block16? (s : String) : Option (List UInt8) := do
+  let b ← bytesOfHex s
+  if b.length = 16 then some b else none
+
+/-- render a `Res` whose payload is (ret, bytes) -/
+def showRetOut (op : String) : Res (Nat × List UInt8) → String
+  | .ok (r, o) => s!"P {op} ret={r} out={hexOfBytes o}"
+  | .oob w => s!"P {op} OOB {w}"
+  | .exc k => s!"P {op} exc={k}"
+  | .assertFail => s!"P {op} assert"
+
+def showBytes (op : String) : Res (List UInt8) → String
+  | .ok o => s!"P {op} {hexOfBytes o}"
+  | .oob w => s!"P {op} OOB {w}"
+  | .exc k => s!"P {op} exc={k}"
+  | .assertFail => s!"P {op} assert"
+
+/-- appends the comparison with an external reference value (`ref=<text>` last token) -/
+def withRef (ref : Option String) (value : String) (line : String) : String :=
+  match ref with
+  | none => line
+  | some r => line ++ (if r = value then " ref=ok" else " ref=BAD")
+
+def splitRef (ws : List String) : List String × Option String :=
+  match ws.getLast? with
+  | some l => if l.startsWith "ref=" then (ws.dropLast, some (l.drop 4).toString) else (ws, none)
+  | none => (ws, none)
+
+def field? (w : String) : Option Ser.Field :=
+  match w.splitOn ":" with
+  | ["i1", v] => do let n ← v.toNat?; if n < 2 ^ 8 then some (.int 1 n) else none
+  | ["i2", v] => do let n ← v.toNat?; if n < 2 ^ 16 then some (.int 2 n) else none
+  | ["i4", v] => do let n ← v.toNat?; if n < 2 ^ 32 then some (.int 4 n) else none
+  | ["i8", v] => do let n ← v.toNat?; if n < 2 ^ 64 then some (.int 8 n) else none
+  | ["r", h] => do pure (.raw (← bytesOfHex h))
+  | ["p", h] => do pure (.pod (← bytesOfHex h))
+  | ["e", e] => do pure (.endian (← endian? e))
+  | _ => none
+
+def intWidth? (s : String) : Option Nat :=
+  match s with
+  | "1" => some 1 | "2" => some 2 | "4" => some 4 | "8" => some 8 | _ => none
+
+def showSer (r : Res (Bool × Ser.S)) : String × Option Ser.S :=
+  match r with
+  | .ok (b, s) => (s!"P ser ret={if b then 1 else 0} pos={s.pos} mem={hexOfBytes s.mem}", some s)
+  | .oob w => (s!"P ser OOB {w}", none)
+  | _ => ("P ser ?", none)
+
+def b64Tag (s : List UInt8) (cap : Nat) : String :=
+  let pads := (s.reverse.takeWhile (· = 61)).length
+  let hi := if s.any (· ≥ 128) then " b64-hi-byte" else ""
+  let inv := if s.any (fun c => c < 128 ∧ c ≠ 61 ∧ Gen.base64de.getD c.toNat 255 = 255) then " b64-invalid-char" else ""
+  let midpad := if (s.dropLast.dropLast).any (· = 61) then " b64-inner-pad" else ""
+  let dl := B64.decodeLength s
+  let capt := if s.length % 4 ≠ 0 then " b64-len-not-mult4"
+    else if cap = dl then " b64-cap-exact" else if cap < dl then " b64-cap-short" else " b64-cap-roomy"
+  s!"b64-pads{min pads 3}{hi}{inv}{midpad}{capt}"
+
+/-- one operation: returns new state and output lines -/
+def runOp (st : DSt) (ws0 : List String) : Option (DSt × List String) :=
+  let (ws, ref) := splitRef ws0
+  match ws with
+  -- ---------------------------------------------------------------- Base64
+  | ["b64.enc", h] => do
+      let x ← bytesOfHex h
+      let m := B64.encodeStr x
+      let spec : Res (List UInt8) := if x.isEmpty then .assertFail else .ok (Spec.b64Encode x)
+      let line := withRef ref (match spec with | .ok o => hexOfBytes o | _ => "") (showBytes "b64.enc" spec)
+      pure (st, [s!"B b64-enc-mod{x.length % 3}", line] ++ (if m = spec then [] else ["P model-disagrees-with-spec b64.enc"]))
+  | ["b64.encbuf", h, c] => do
+      let x ← bytesOfHex h; let cap ← c.toNat?
+      let el := B64.encodeLength x.length
+      let t := if cap = el then "exact" else if cap < el then "short" else "roomy"
+      pure (st, [s!"B b64-encbuf-{t}", showRetOut "b64.encbuf" (B64.encodeBuf x cap)])
+  | ["b64.declen", h] => do
+      let s ← bytesOfHex h
+      pure (st, [s!"P b64.declen {B64.decodeLength s}"])
+  | ["b64.dec", h, c] => do
+      let s ← bytesOfHex h; let cap ← c.toNat?
+      pure (st, ["B " ++ b64Tag s cap, showRetOut "b64.dec" (B64.decodeBuf s cap)])
+  | ["b64.decvec", h] => do
+      let s ← bytesOfHex h
+      pure (st, ["B " ++ b64Tag s (B64.decodeLength s), showRetOut "b64.decvec" (B64.decodeVec s)])
+  | ["b64.rt", h] => do
+      let x ← bytesOfHex h
+      if x.isEmpty then pure (st, ["P b64.rt assert"]) else
+      let e := Spec.b64Encode x
+      let good := B64.decodeBuf e x.length = .ok (x.length, x) ∧ B64.decodeVec e = .ok (x.length, x)
+        ∧ e.length = B64.encodeLength x.length ∧ B64.decodeLength e = x.length
+      pure (st, [s!"B b64-rt-mod{x.length % 3}", if good then "P b64.rt ok" else "P b64.rt MODEL-FAILS"])
+  -- ---------------------------------------------------------------- scalable integer
+  | ["si.dump", v, c] => do
+      let v ← u64? v; let cap ← c.toNat?
+      let need := match SInt.needBytes v with | .ok n => n | _ => 0
+      let t := if cap = need then "exact" else if cap < need then "short" else "roomy"
+      pure (st, [s!"B si-dump-{need}b-{t}", showRetOut "si.dump" (SInt.dump v cap)])
+  | ["si.parse", h] => do
+      let bs ← bytesOfHex h
+      let cont := (bs.takeWhile (· ≥ 128)).length
+      let line := match SInt.parse bs with
+        | .ok (r, some v) => s!"P si.parse ret={r} val={v}"
+        | .ok (r, none) => s!"P si.parse ret={r} val=-"
+        | .oob w => s!"P si.parse OOB {w}"
+        | _ => "P si.parse ?"
+      pure (st, [s!"B si-parse-cont{min cont 12}{if cont = bs.length then "-unterminated" else ""}", line])
+  | ["si.rt", v] => do
+      let v ← u64? v
+      let line := match SInt.dump v 10 with
+        | .ok (n, out) => if SInt.parse out = .ok (n, some v) ∧ n > 0 then s!"P si.rt ok len={n}" else "P si.rt MODEL-FAILS"
+        | _ => "P si.rt MODEL-FAILS"
+      pure (st, [line])
+  -- ---------------------------------------------------------------- hex strings
+  | ["hex.enc", h, u, d] => do
+      let x ← bytesOfHex h; let up ← bool01? u; let dl ← bytesOfHex d
+      if x.length ≥ 65536 then none else
+      pure (st, [s!"P hex.enc {hexOfBytes (Hex.rawToHex up dl x)}"])
+  | ["hex.decbuf", h, c] => do
+      let s ← bytesOfHex h; let cap ← c.toNat?
+      if cap ≥ 65536 then none else
+      let r := Hex.toBuf s cap
+      let t := match r with | .exc _ => "exc" | _ => if cap * 2 < s.length then "cap-limited" else if s.length % 2 = 1 then "odd-tail" else "all"
+      pure (st, [s!"B hex-decbuf-{t}", showRetOut "hex.decbuf" r])
+  | ["hex.decvec", h, d] => do
+      let s ← bytesOfHex h; let dl ← bytesOfHex d
+      let r := Hex.toVec s dl
+      pure (st, [s!"B hex-decvec-{if dl.isEmpty then "nodelim" else "delim"}-{r.exc.getD "ok"}",
+                 s!"P hex.decvec exc={r.exc.getD "-"} out={hexOfBytes r.out}"])
+  | ["hex.rt", h, u, d] => do
+      let x ← bytesOfHex h; let up ← bool01? u; let dl ← bytesOfHex d
+      if x.length ≥ 65536 then none else
+      let e := Hex.rawToHex up dl x
+      let v := Hex.toVec e dl
+      let b := Hex.toBuf e x.length
+      let good := v = ⟨none, x⟩ ∧ (x.isEmpty ∨ (dl.isEmpty → b = .ok (x.length, x)))
+      pure (st, [if good then "P hex.rt ok" else s!"P hex.rt FAIL exc={v.exc.getD "-"}"])
+  -- ---------------------------------------------------------------- serializer
+  | ["ser.raw", c, e] => do
+      let cap ← c.toNat?; let e ← endian? e
+      pure ({ st with ser := some (Ser.S.newRaw cap e) }, ["P ser new"])
+  | ["ser.vec", h, e] => do
+      let v ← bytesOfHex h; let e ← endian? e
+      pure ({ st with ser := some (Ser.S.newVec v e) }, ["P ser new"])
+  | ["ser.int", n, v] => do
+      let s ← st.ser; let n ← intWidth? n; let v ← v.toNat?
+      if v ≥ 2 ^ (8 * n) then none else
+      let (line, s') := showSer (s.appendInt n v)
+      pure ({ st with ser := s'.orElse (fun _ => some s) }, [s!"B ser-int{n}-{if s.raw then "raw" else "vec"}", line])
+  | ["ser.bytes", h] => do
+      let s ← st.ser; let b ← bytesOfHex h
+      let (line, s') := showSer (s.appendRaw b)
+      pure ({ st with ser := s'.orElse (fun _ => some s) }, [line])
+  | ["ser.pod", h] => do
+      let s ← st.ser; let b ← bytesOfHex h
+      let (line, s') := showSer (s.appendPOD b)
+      pure ({ st with ser := s'.orElse (fun _ => some s) }, [line])
+  | ["ser.endian", e] => do
+      let s ← st.ser; let e ← endian? e
+      pure ({ st with ser := some { s with endian := e } }, ["P ser endian"])
+  | ["des.new", h, e] => do
+      let d ← bytesOfHex h; let e ← endian? e
+      pure ({ st with des := some (Ser.D.new d e) }, ["P des new"])
+  | ["des.int", n] => do
+      let d ← st.des; let n ← intWidth? n
+      match d.fetchInt n with
+      | .ok (some v, d') => pure ({ st with des := some d' }, [s!"B des-int{n}-ok", s!"P des ret=1 val={v} pos={d'.pos}"])
+      | .ok (none, d') => pure ({ st with des := some d' }, [s!"B des-int{n}-short", s!"P des ret=0 val=- pos={d'.pos}"])
+      | .oob w => pure (st, [s!"P des OOB {w}"])
+      | _ => pure (st, ["P des ?"])
+  | ["des.bytes", n] => do
+      let d ← st.des; let n ← n.toNat?
+      if n > 4096 then none else
+      match d.fetchRaw n with
+      | .ok (some v, d') => pure ({ st with des := some d' }, [s!"P des ret=1 val={hexOfBytes v} pos={d'.pos}"])
+      | .ok (none, d') => pure ({ st with des := some d' }, [s!"P des ret=0 val=- pos={d'.pos}"])
+      | .oob w => pure (st, [s!"P des OOB {w}"])
+      | _ => pure (st, ["P des ?"])
+  | ["des.nocopy", n] => do
+      let d ← st.des; let n ← n.toNat?
+      if n > 4096 then none else
+      match d.fetchRaw n with
+      | .ok (some v, d') => pure ({ st with des := some d' }, [s!"P des ret=1 val={hexOfBytes v} pos={d'.pos}"])
+      | .ok (none, d') => pure ({ st with des := some d' }, [s!"P des ret=0 val=- pos={d'.pos}"])
+      | .oob w => pure (st, [s!"P des OOB {w}"])
+      | _ => pure (st, ["P des ?"])
+  | ["des.pod", n] => do
+      let d ← st.des; let n ← n.toNat?
+      if n > 4096 then none else
+      match d.fetchPOD n with
+      | .ok (some v, d') => pure ({ st with des := some d' }, [s!"P des ret=1 val={hexOfBytes v} pos={d'.pos}"])
+      | .ok (none, d') => pure ({ st with des := some d' }, [s!"P des ret=0 val=- pos={d'.pos}"])
+      | .oob w => pure (st, [s!"P des OOB {w}"])
+      | _ => pure (st, ["P des ?"])
+  | ["des.skip", n] => do
+      let d ← st.des; let n ← n.toNat?
+      if n ≥ 2 ^ 62 then none else
+      let (b, d') := d.skip n
+      pure ({ st with des := some d' }, [s!"P des ret={if b then 1 else 0} val=- pos={d'.pos}"])
+  | ["des.setpos", n] => do
+      let d ← st.des; let n ← n.toNat?
+      if n ≥ 2 ^ 62 then none else
+      let (b, d') := d.setPos n
+      pure ({ st with des := some d' }, [s!"P des ret={if b then 1 else 0} val=- pos={d'.pos}"])
+  | ["des.endian", e] => do
+      let d ← st.des; let e ← endian? e
+      pure ({ st with des := some { d with endian := e } }, ["P des endian"])
+  | "ser.rt" :: e :: fs => do
+      let e ← endian? e
+      let fields ← fs.mapM field?
+      let line := match Ser.serFields (Ser.S.newVec [] e) fields with
+        | .ok s =>
+          match Ser.desFields (Ser.D.new s.mem e) fields with
+          | .ok (some back) => if back = fields then s!"P ser.rt ok bytes={hexOfBytes s.mem}" else "P ser.rt MODEL-FAILS"
+          | _ => "P ser.rt MODEL-FAILS"
+        | _ => "P ser.rt MODEL-FAILS"
+      pure (st, [s!"B ser-rt-{min fields.length 9}fields", line])
+  -- ---------------------------------------------------------------- CRC / checksums
+  | ["crc16", h, seed] => do
+      let d ← bytesOfHex h; let s ← seed.toNat?
+      if s ≥ 65536 then none else
+      let spec := Spec.crc16 d (UInt16.ofNat s); let m := Crc.crc16 d (UInt16.ofNat s)
+      pure (st, [s!"P crc16 {spec}"] ++ (if m = spec then [] else [s!"P model-disagrees-with-spec crc16 {m}"]))
+  | ["crc32", h, seed] => do
+      let d ← bytesOfHex h; let s ← seed.toNat?
+      if s ≥ 2 ^ 32 then none else
+      let spec := Spec.crc32 d (UInt32.ofNat s); let m := Crc.crc32 d (UInt32.ofNat s)
+      pure (st, [withRef ref (toString spec) s!"P crc32 {spec}"] ++ (if m = spec then [] else [s!"P model-disagrees-with-spec crc32 {m}"]))
+  | ["sum8", h] => do
+      let d ← bytesOfHex h
+      let spec := Spec.sum8 d; let m := Crc.sum8 d
+      pure (st, [s!"P sum8 {spec}"] ++ (if m = spec then [] else [s!"P model-disagrees-with-spec sum8 {m}"]))
+  | ["sum16", h] => do
+      let d ← bytesOfHex h
+      let spec := Spec.sum16 d; let m := Crc.sum16 d
+      pure (st, [s!"B sum16-{if d.length % 2 = 0 then "even" else "odd"}", s!"P sum16 {spec}"]
+                ++ (if m = spec then [] else [s!"P model-disagrees-with-spec sum16 {m}"]))
+  -- ---------------------------------------------------------------- URL
+  | ["url.enc", h, m] => do
+      let s ← bytesOfHex h; let pm ← bool01? m
+      let o := Url.encode pm s
+      pure (st, [withRef ref (hexOfBytes o) s!"P url.enc {hexOfBytes o}"])
+  | ["url.dec", h] => do
+      let s ← bytesOfHex h
+      let r := Url.decode s
+      let t := match r with | .exc _ => "exc" | _ => if s.contains 37 then "escapes" else "plain"
+      pure (st, [s!"B url-dec-{t}", showBytes "url.dec" r])
+  | ["url.rt", h, m] => do
+      let s ← bytesOfHex h; let pm ← bool01? m
+      pure (st, [if Url.decode (Url.encode pm s) = .ok s then "P url.rt ok" else "P url.rt MODEL-FAILS"])
+  -- ---------------------------------------------------------------- MD5
+  | "md5" :: pieces => do
+      let ps ← pieces.mapM bytesOfHex
+      let spec := Md5.digestSplit Spec.md5Params ps
+      let whole := Md5.digest Spec.md5Params ps.flatten
+      let m := Md5.digestSplit Md5.gen ps
+      let total := ps.flatten.length
+      pure (st, [s!"B md5-pieces{min ps.length 9} md5-len-mod64-{if total % 64 < 56 then "lt56" else "ge56"}{if ps.any (·.isEmpty) then " md5-empty-piece" else ""}{if ps.any (·.length ≥ 64) then " md5-multiblock-piece" else ""}",
+                 withRef ref (hexOfBytes whole) s!"P md5 {hexOfBytes whole}"]
+                ++ (if spec = whole then [] else ["P md5-split-differs-from-oneshot " ++ hexOfBytes spec])
+                ++ (if m = spec then [] else ["P model-disagrees-with-spec md5 " ++ hexOfBytes m]))
+  -- ---------------------------------------------------------------- AES
+  | ["aes.enc", k, b] => do
+      let k ← block16? k; let b ← block16? b
+      let spec := Aes.cipher Spec.aesTables k b; let m := Aes.cipher Aes.gen k b
+      pure (st, [withRef ref (hexOfBytes spec) s!"P aes.enc {hexOfBytes spec}"] ++ (if m = spec then [] else ["P model-disagrees-with-spec aes.enc " ++ hexOfBytes m]))
+  | ["aes.dec", k, b] => do
+      let k ← block16? k; let b ← block16? b
+      let spec := Aes.invCipher Spec.aesTables k b; let m := Aes.invCipher Aes.gen k b
+      pure (st, [withRef ref (hexOfBytes spec) s!"P aes.dec {hexOfBytes spec}"] ++ (if m = spec then [] else ["P model-disagrees-with-spec aes.dec " ++ hexOfBytes m]))
+  | ["aes.rt", k, b] => do
+      let k ← block16? k; let b ← block16? b
+      let good := Aes.invCipher Spec.aesTables k (Aes.cipher Spec.aesTables k b) = b
+      pure (st, [if good then "P aes.rt ok" else "P aes.rt MODEL-FAILS"])
+  | _ => none
+
+def stepLine (st : DSt) (line : String) : DSt × List String :=
+  let ws := words line
+  match ws with
+  | [] => (st, [])
+  | "case" :: _ => ({}, [line.trimAscii.toString])
+  | _ =>
+    match runOp st ws with
+    | some r => r
+    | none => (st, ["bad-op"])
+
+def main : IO Unit := runDriver ({} : DSt) stepLine
